@@ -165,7 +165,10 @@ def check_sectors(ctx, sym, nd, css, duals, rng):
                 ctx.nontrivial(("sec", sym, fermionic, css, duals, charge))
             ctx.sample({"kind": "sector-enumeration", **desc, "expected_sectors": [repr(s) for s in expect]})
             # the constructors that rely on the enumeration
-            o = ctx.call(lambda: cls.from_fill_fn(lambda shape: __import__("numpy").ones(shape), indices, charge, **kw))
+            how = rng.choice(["list", "list", "tuple", "generator", "iterator"])
+            as_arg = {"list": lambda: list(indices), "tuple": lambda: tuple(indices), "generator": lambda: (ix for ix in indices), "iterator": lambda: iter(indices)}[how]
+            ctx.count("indices_container", how)
+            o = ctx.call(lambda: cls.from_fill_fn(lambda shape: __import__("numpy").ones(shape), as_arg(), charge, **kw))
             ctx.evaluated()
             ctx.count("sectors", f"{sym}:from_fill_fn")
             if not o.ok:
@@ -177,7 +180,7 @@ def check_sectors(ctx, sym, nd, css, duals, rng):
                     if tuple(b.shape) != shp:
                         ctx.violation("from_fill_fn-block-shape", f"{desc}: block {sec} shape {b.shape} != {shp}", desc)
             if rng.random() < 0.3:
-                o = ctx.call(lambda: cls.random(indices, charge=charge, seed=7, **kw))
+                o = ctx.call(lambda: cls.random(as_arg(), charge=charge, seed=7, **kw))
                 ctx.evaluated()
                 ctx.count("sectors", f"{sym}:random")
                 if not o.ok:
